@@ -64,3 +64,20 @@ package deps
 //@   ensures[rejected-block-move-changes-nothing] result != nil ==> heap_unchanged()
 //@   ensures[block-order-rotated] result == nil ==> blockmove("rotated", from, to)
 //@   ensures[block-move-changes-no-address] result == nil ==> blockmove("nothing-else", from, to)
+
+// A second contract of NewCode (property C08), over the code layouts of the
+// corpus: layout_instrs(l) are the instructions of the l-th layout (kinds:
+// plain, jump-to-next, constant jump, conditional branch, indirect jump;
+// addresses with and without gaps; shuffled), layout_entry(l) its entry point.
+// partition_must_fail(): the entry point or a constant real jump target is not
+// the start of an instruction; partition_exact(c): the blocks of c, in address
+// order, end exactly after each instruction with a real jump target, at address
+// gaps and before each constant jump target and the entry point.
+
+//@ func NewCode#partition
+//@   enum l in CODELAYOUTS
+//@   input:entrypoint layout_entry(l)
+//@   input:seq layout_instrs(l)
+//@   ensures[fails-iff-entry-or-target-not-at-instruction] (result1 != nil) == partition_must_fail()
+//@   ensures[no-code-on-error] result1 != nil ==> isnil(result0)
+//@   ensures[partition-exact] result1 == nil ==> partition_exact(result0)
